@@ -84,7 +84,9 @@ func checkC10(w *Worker) {
 		chunk := []int{0, 1, 2, 7}[x.Choose(4, "env:chunk")]
 		full, fret, _ := parseWithReader(&faultReader{data: []byte(data), FailAt: len(data) + 1, Chunk: chunk})
 		if fret != nil {
-			hfail("complete file does not parse: %v", fret)
+			x.Case("skip: the complete file is rejected (C04's business)", false)
+			x.Note("complete_file_rejected", 1)
+			return
 		}
 		fr := &faultReader{data: []byte(data), FailAt: k, Chunk: chunk, Together: together}
 		got, ret, pan := parseWithReader(fr)
@@ -131,7 +133,9 @@ func checkC10(w *Worker) {
 		chunk := []int{0, 1000, 4096}[x.Choose(3, "env:chunk")]
 		full, fret, _ := parseWithReader(&faultReader{data: []byte(bigData), FailAt: len(bigData) + 1, Chunk: chunk})
 		if fret != nil {
-			hfail("complete large file does not parse: %v", fret)
+			x.Case("skip: the complete file is rejected (C04's business)", false)
+			x.Note("complete_file_rejected", 1)
+			return
 		}
 		fr := &faultReader{data: []byte(bigData), FailAt: k, Chunk: chunk, Together: together}
 		got, ret, pan := parseWithReader(fr)
